@@ -614,6 +614,31 @@ func (g *genState) genCase(id string) {
 			g.nextSnap++
 			g.emit("q fresh %s init", k[0])
 		}
+		if len(g.iters) > 0 && r.Chance(g.weight(5, "C07 C08", 4)) {
+			// an iterator is advanced with a write transaction that has deleted an observed object, the transaction
+			// commits, a complete collection runs, and only then is the iterator advanced again
+			for id := 0; id < g.nextIter; id++ {
+				if tb, ok := g.iters[id]; ok && !g.fresh[id] {
+					did := g.pickID()
+					g.emit("next %d fresh all", id)
+					g.emit("begin %d", tb)
+					g.emit("delete %d %s", tb, hx.Hex(did))
+					g.emit("next %d txn all", id)
+					g.emit("commit %d", g.nextSnap)
+					g.locked = map[int]bool{tb: true}
+					g.sh.begin(g.locked)
+					g.sh.delete(tb, false, 0, did, true)
+					g.sh.commit()
+					g.snaps = append(g.snaps, g.nextSnap)
+					g.nextSnap++
+					g.emit("gcscan")
+					g.emit("gcapply")
+					g.emit("next %d fresh all", id)
+					g.itSnap[id] = len(g.snaps)
+					break
+				}
+			}
+		}
 		if len(g.iters) > 0 && r.Chance(g.weight(8, "C08", 5)) {
 			// an iterator advances while the collector sits between its scan and its write transaction
 			for id := 0; id < g.nextIter; id++ {
@@ -629,6 +654,9 @@ func (g *genState) genCase(id string) {
 					break
 				}
 			}
+		}
+		if r.Chance(g.weight(3, "C10 C05", 5)) {
+			g.emit("regdup")
 		}
 		for n := r.Intn(5); n > 0; n-- {
 			switch x := r.Intn(100); {
